@@ -222,6 +222,77 @@ EXTRA = [
   u = sum(e for e in xs if e > x)
   return (r, s, u)
 '''),
+    ('e:break_in_loop_else_of_nested_loop', '''def f(x, n, b, xs):
+  found = 0
+  for row in xs:
+    w = 0
+    while w < n:
+      w = w + 1
+      if b:
+        break
+    else:
+      if x > 1:
+        break
+      found = found + 100
+      continue
+    for q in range(n):
+      if q == x:
+        break
+    else:
+      break
+    found = found + 1
+  return found
+'''),
+    ('e:underscore_prefixed_names', '''def f(x, n, b, xs):
+  a = 1
+  a_prev = 0
+  n_iter = 0
+  while n_iter < n:
+    n_iter = n_iter + 1
+    if b:
+      a_prev = a
+    a = a + 1
+    n = n - 0
+  for a in xs:
+    c = a_prev + a
+  if x > 0:
+    a_prev = a_prev + n_iter
+  return (a, a_prev, n_iter)
+'''),
+    ('e:indirect_closure_late_binding', '''def f(x, n, b, xs):
+  def g():
+    def inner():
+      return late + 1
+    return inner()
+  late = 0
+  i = 0
+  while i < n:
+    i = i + 1
+    late = i * 10
+  r = 0
+  if b:
+    r = g()
+  return r
+'''),
+    ('e:declarations_inside_blocks', '''def f(x, n, b, xs):
+  total = 0
+  def bump(k):
+    if k > x:
+      nonlocal total
+      total = total + k
+    else:
+      pass
+    return total
+  for i in range(n):
+    global G
+    G = i
+  if b:
+    global H
+    H = 1
+  else:
+    c = 2
+  return bump(n)
+'''),
     ('e:maybe_undefined', '''def f(x, n, b, xs):
   if b:
     u = 1
@@ -270,4 +341,9 @@ def programs(tier, seed, want_extra=True):
     progs += gen.random_programs(60, seed + 12, E2_FEATURES, max_depth=4, max_stmts=7)
   if want_extra:
     progs += [gen.Prog(n, s, {'extra'}) for n, s in EXTRA]
+    from vf import exotic
+    progs += exotic.programs() + [gen.Prog(n, s, {'exotic'}) for n, s in exotic.ANALYSIS_ONLY]
+  import os
+  if os.environ.get('VF_ONLY'):
+    progs = [p for p in progs if p.name.startswith(os.environ['VF_ONLY'])]
   return progs
